@@ -35,7 +35,10 @@ RULE = ("schedules over {async_subscribe(svc) started, NOTIFY arrives, SUBSCRIBE
         "subscribes started, then ALL interleavings of NOTIFY#0..#k with the response of service 0 and the completion of service 1's "
         "subscribe, for EVERY assignment of a non-empty subset of two variables and of a SID to each NOTIFY — k<=2 with SIDs {service "
         "0's, service 1's, never granted}, k=3 with SIDs {service 0's, never granted} (quick: one NOTIFY fewer, k=2 for service 0's SID "
-        "only); plus random schedules over 1..3 services with refused / unreachable / SID-less responses, invalid headers and values; "
+        "only); every SEQUENCE (with repetition: A-B-A, A-A-B, A-B-B-A) of k<=3 (thorough 4) bodies over a 4-body alphabet as byte-identical "
+        "early NOTIFYs at every response position, the same bodies for two SIDs; "
+        "plus random schedules over 1..3 services with refused / unreachable / SID-less responses, invalid headers and values, "
+        "verbatim repeats; "
         "after every event the status / returned value and every variable of every service are compared and judged. "
         "non-trivial = at least one NOTIFY arrived before the response that granted its SID")
 EXHAUSTIVE = {"quick": False, "thorough": True}
@@ -138,12 +141,13 @@ async def _run(recipe, lines, tags):
         elif kind == "notify":
             _, nt, nts, sid, body = op[:5]
             pad = op[5] if len(op) > 5 else ""
+            style = op[6] if len(op) > 6 and op[6] is not None else k   # a fixed style makes repeated NOTIFYs byte-identical
             lines.append(f"ev notify {c09env.opt_tok(nt)} {c09env.opt_tok(nts)} {c09env.opt_tok(sid)} {c09env.body_tok(body)}")
             if sid is not None and sid not in routed:
                 early.add(sid)
             try:
                 with watchdog():
-                    st = await eh.handle_notify(c09env.notify_headers(nt, nts, sid, k), c09env.render_body(body, pad, k))
+                    st = await eh.handle_notify(c09env.notify_headers(nt, nts, sid, style), c09env.render_body(body, pad, style))
                 lines.append(f"out notified status {int(st)}")
             except Exception as e:  # noqa: BLE001
                 lines.append("out notified exc " + c09env.exc_tok(e))
@@ -224,6 +228,39 @@ def P(*kids):
 
 def notify(sid, kids, nt=NT_OK, nts=NTS_OK, pad=""):
     return ["notify", nt, nts, sid, [P(*kids)] if kids else [], pad]
+
+
+def same(sid, kids):
+    """a NOTIFY whose headers and body text depend on (sid, kids) only: sending it again is a byte-identical request"""
+    return ["notify", NT_OK, NTS_OK, sid, [P(*kids)] if kids else [], "", 0]
+
+
+# bodies over a two-letter value alphabet per variable: sequences WITH repetition (A-B-A, A-A-B, A-B-B-A …)
+REP_BODIES = [[["", "A", "10"]], [["", "A", "20"]], [["", "A", "10"], ["", "B", "x"]], [["", "B", "y"]]]
+
+
+def repeated(ctx: Ctx):
+    """early NOTIFYs are a SEQUENCE, not a set: every sequence of k<=3 (quick) / k<=4 (thorough) bodies over REP_BODIES for the SID
+    being granted, byte-identical repeats included, with the response at every position; and the same bodies sent for two SIDs"""
+    out = []
+    for m in ((3, 4) if ctx.thorough else (3,)):
+        for seq in itertools.product(range(len(REP_BODIES)), repeat=m):
+            if len(set(seq)) == m and m == 4:
+                continue     # no repetition at all: covered by the other enumeration
+            ns = [same(S0, REP_BODIES[b]) for b in seq]
+            for p0 in range(m + 1):
+                ev = list(ns)
+                ev.insert(p0, grant(0, S0))
+                out.append({"ops": [["start", 0, 1800]] + ev})
+    # the same body for two different SIDs, both granted (quick: two bodies; thorough: three), all response positions
+    bodies = REP_BODIES[:3] if ctx.thorough else REP_BODIES[:2]
+    for seq in itertools.product(itertools.product([S0, S1], range(len(bodies))), repeat=3):
+        if len({b for _, b in seq}) == 3:
+            continue
+        ns = [same(sid, bodies[b]) for sid, b in seq]
+        for ops in interleavings(ns, grant(0, S0), grant(1, S1, None)):
+            out.append({"ops": ops})
+    return out
 
 
 def grant(i, sid, tmo="Second-300"):
@@ -335,6 +372,17 @@ def rand_recipe(rng):
             events.append(["notify", nt, nts, sid, "#", ""])      # not XML: compared, judging stops
         else:
             events.append(notify(sid if rng.randrange(12) else None, kids, nt, nts, rng.choice(["", "\n", "\0"])))
+    notifs = [e for e in events if e[0] == "notify" and e[4] != "#"]
+    for _ in range(rng.randrange(0, 3)):      # the same NOTIFY again, byte for byte (fixed style), possibly for another SID
+        if notifs:
+            src = rng.choice(notifs)
+            dup = list(src[:6]) + [0]
+            src_fixed = list(src[:6]) + [0]
+            events[events.index(src)] = src_fixed
+            notifs[notifs.index(src)] = src_fixed
+            if rng.randrange(3) == 0:
+                dup[3] = rng.choice(sids)
+            events.append(dup)
     rng.shuffle(events)
     if rng.randrange(6) == 0:   # a repeated subscribe: in the domain after a failure, outside it after a grant / while one is parked
         i = rng.randrange(nsvc)
@@ -362,6 +410,13 @@ CORPUS = [
     # SID was registered, the backlog entry stays (compared with the model; outside the property's domain, not judged)
     {"ops": [["start", 0, 1800], notify(S0, [["", "A", "1"]]), ["notify", NT_OK, NTS_OK, S0, "#", ""], notify(S0, [["", "A", "2"]]),
              grant(0, S0), notify(S0, [["", "B", "live"]]), ["notify", NT_OK, NTS_OK, S0, "#", ""]]},
+    # round 3: early NOTIFYs are a sequence — Volume 10, 20, 10 as three NOTIFYs, the first and third byte-identical; a replay that
+    # skips a body it has already replayed would leave 20
+    {"ops": [["start", 0, 1800], same(S0, [["", "A", "10"]]), same(S0, [["", "A", "20"]]), same(S0, [["", "A", "10"]]), grant(0, S0)]},
+    {"ops": [["start", 0, 1800], same(S0, [["", "A", "10"]]), same(S0, [["", "A", "10"]]), same(S0, [["", "A", "20"]]), grant(0, S0),
+             same(S0, [["", "A", "10"]]), same(S0, [["", "A", "10"]])]},
+    {"ops": [["start", 0, 1800], ["start", 1, 1800], same(S0, [["", "A", "10"]]), same(S1, [["", "A", "10"]]), same(S0, [["", "A", "20"]]),
+             same(S1, [["", "A", "20"]]), same(S0, [["", "A", "10"]]), grant(1, S1), same(S1, [["", "A", "10"]]), grant(0, S0)]},
     # early NOTIFY with bad headers is not stored
     {"ops": [["start", 0, 1800], notify(S0, [["", "A", "1"]], nt=None), notify(S0, [["", "A", "2"]], nts="x"), notify(None, [["", "A", "3"]]), grant(0, S0)]},
 ]
@@ -401,7 +456,7 @@ def run_many(recipes: List[dict], prefix: str) -> List[Case]:
 
 def generate(ctx: Ctx) -> List[Case]:
     cases = [run_recipe(ctx, rec, f"corpus{i}") for i, rec in enumerate(CORPUS)]
-    recipes = exhaustive(ctx)
+    recipes = exhaustive(ctx) + repeated(ctx)
     n_random = 4000 if ctx.thorough else 300
     recipes += [rand_recipe(ctx.rng) for _ in range(n_random)]
     cases += run_many(recipes, "g")
